@@ -58,37 +58,96 @@ pub open spec fn rd(y: int, m: int, d: int) -> int {
     let mm = if m <= 2 { m + 12 } else { m };
     365 * yy + yy / 4 - yy / 100 + yy / 400 + (153 * (mm - 3) + 2) / 5 + d - 1 - 719468
 }
+#[verifier::spinoff_prover]
 pub proof fn lemma_rd_epoch()
     ensures rd(1970, 1, 1) == 0, rd(-9999, 1, 1) == -4371587, rd(9999, 12, 31) == 2932896,
 {}
+/// (153(mm-3)+2)/5 for the shifted month number mm = 3..14 (March..February)
+pub open spec fn moff(mm: int) -> int {
+    if mm == 3 { 0 } else if mm == 4 { 31 } else if mm == 5 { 61 } else if mm == 6 { 92 } else if mm == 7 { 122 } else if mm == 8 { 153 }
+    else if mm == 9 { 184 } else if mm == 10 { 214 } else if mm == 11 { 245 } else if mm == 12 { 275 } else if mm == 13 { 306 } else { 337 }
+}
+#[verifier::spinoff_prover]
+pub proof fn lemma_moff(mm: int)
+    requires 3 <= mm <= 14,
+    ensures (153 * (mm - 3) + 2) / 5 == moff(mm),
+{
+    if mm == 3 {} else if mm == 4 {} else if mm == 5 {} else if mm == 6 {} else if mm == 7 {} else if mm == 8 {}
+    else if mm == 9 {} else if mm == 10 {} else if mm == 11 {} else if mm == 12 {} else if mm == 13 {} else {}
+}
+/// stepping from y-1 to y changes floor(y/k) by one exactly when k divides y
+#[verifier::spinoff_prover]
+pub proof fn lemma_div_step(y: int, k: int)
+    requires k > 1,
+    ensures y / k - (y - 1) / k == (if y % k == 0 { 1int } else { 0int }),
+{
+    let q = y / k; let r = y % k;
+    vstd::arithmetic::div_mod::lemma_fundamental_div_mod(y, k);
+    vstd::arithmetic::div_mod::lemma_mod_bound(y, k);
+    assert(y == k * q + r && 0 <= r < k);
+    if r == 0 {
+        assert(y - 1 == (q - 1) * k + (k - 1)) by (nonlinear_arith) requires y == k * q + r, r == 0;
+        vstd::arithmetic::div_mod::lemma_fundamental_div_mod_converse(y - 1, k, q - 1, k - 1);
+    } else {
+        assert(y - 1 == q * k + (r - 1)) by (nonlinear_arith) requires y == k * q + r;
+        vstd::arithmetic::div_mod::lemma_fundamental_div_mod_converse(y - 1, k, q, r - 1);
+    }
+}
+#[verifier::spinoff_prover]
+pub proof fn lemma_divides_chain(y: int, a: int, b: int)
+    requires a > 0, b > 0, y % (a * b) == 0,
+    ensures y % a == 0,
+{
+    let q = y / (a * b);
+    assert(a * b > 0) by (nonlinear_arith) requires a > 0, b > 0;
+    vstd::arithmetic::div_mod::lemma_fundamental_div_mod(y, a * b);
+    assert(y == (q * b) * a + 0) by (nonlinear_arith) requires y == (a * b) * q + y % (a * b), y % (a * b) == 0;
+    vstd::arithmetic::div_mod::lemma_fundamental_div_mod_converse(y, a, q * b, 0);
+}
+/// how the three leap-year quotients change from y-1 to y
+#[verifier::spinoff_prover]
+pub proof fn lemma_leap_step(y: int)
+    ensures y / 4 - (y - 1) / 4 == (if y % 4 == 0 { 1int } else { 0int }),
+            y / 100 - (y - 1) / 100 == (if y % 100 == 0 { 1int } else { 0int }),
+            y / 400 - (y - 1) / 400 == (if y % 400 == 0 { 1int } else { 0int }),
+            y % 400 == 0 ==> y % 100 == 0, y % 100 == 0 ==> y % 4 == 0,
+{
+    lemma_div_step(y, 4); lemma_div_step(y, 100); lemma_div_step(y, 400);
+    if y % 400 == 0 { lemma_divides_chain(y, 100, 4); }
+    if y % 100 == 0 { lemma_divides_chain(y, 4, 25); }
+}
+/// rd with the month term replaced by the table
+pub open spec fn rd_lin(y: int, m: int, d: int) -> int {
+    let yy = if m <= 2 { y - 1 } else { y };
+    let mm = if m <= 2 { m + 12 } else { m };
+    365 * yy + yy / 4 - yy / 100 + yy / 400 + moff(mm) + d - 1 - 719468
+}
+#[verifier::spinoff_prover]
+pub proof fn lemma_rd_lin(y: int, m: int, d: int)
+    requires 1 <= m <= 12,
+    ensures rd(y, m, d) == rd_lin(y, m, d),
+{
+    lemma_moff(if m <= 2 { m + 12 } else { m });
+}
+#[verifier::spinoff_prover]
 pub proof fn lemma_rd_succ(y: int, m: int, d: int)
     requires valid_ymd(y, m, d),
     ensures valid_ymd(next_y(y, m, d), next_m(y, m, d), next_d(y, m, d)),
             rd(next_y(y, m, d), next_m(y, m, d), next_d(y, m, d)) == rd(y, m, d) + 1,
 {
-    if d == dim(y, m) {
-        if m == 2 {
-            // Feb -> Mar: uses leap-year rule
-            let a = y - 1;
-            assert(y / 4 - a / 4 == (if y % 4 == 0 { 1int } else { 0int }));
-            assert(y / 100 - a / 100 == (if y % 100 == 0 { 1int } else { 0int }));
-            assert(y / 400 - a / 400 == (if y % 400 == 0 { 1int } else { 0int }));
-        }
-    }
+    lemma_rd_lin(y, m, d);
+    lemma_rd_lin(next_y(y, m, d), next_m(y, m, d), next_d(y, m, d));
+    lemma_leap_step(y);
 }
+#[verifier::spinoff_prover]
 pub proof fn lemma_rd_pred(y: int, m: int, d: int)
     requires valid_ymd(y, m, d),
     ensures valid_ymd(prev_y(y, m, d), prev_m(y, m, d), prev_d(y, m, d)),
             rd(prev_y(y, m, d), prev_m(y, m, d), prev_d(y, m, d)) == rd(y, m, d) - 1,
 {
-    if d == 1 {
-        if m == 3 {
-            let a = y - 1;
-            assert(y / 4 - a / 4 == (if y % 4 == 0 { 1int } else { 0int }));
-            assert(y / 100 - a / 100 == (if y % 100 == 0 { 1int } else { 0int }));
-            assert(y / 400 - a / 400 == (if y % 400 == 0 { 1int } else { 0int }));
-        }
-    }
+    lemma_rd_lin(y, m, d);
+    lemma_rd_lin(prev_y(y, m, d), prev_m(y, m, d), prev_d(y, m, d));
+    lemma_leap_step(y);
 }
 // day-of-year (1-based) and its relation to rd
 pub open spec fn days_before_month(y: int, m: int) -> int
@@ -97,32 +156,46 @@ pub open spec fn days_before_month(y: int, m: int) -> int
     if m <= 1 { 0 } else { days_before_month(y, m - 1) + dim(y, m - 1) }
 }
 pub open spec fn doy(y: int, m: int, d: int) -> int { days_before_month(y, m) + d }
+pub open spec fn dbm_tab(y: int, m: int) -> int {
+    let l = if is_leap(y) { 1int } else { 0int };
+    if m == 1 { 0 } else if m == 2 { 31 } else if m == 3 { 59 + l } else if m == 4 { 90 + l } else if m == 5 { 120 + l } else if m == 6 { 151 + l }
+    else if m == 7 { 181 + l } else if m == 8 { 212 + l } else if m == 9 { 243 + l } else if m == 10 { 273 + l } else if m == 11 { 304 + l } else { 334 + l }
+}
+#[verifier::spinoff_prover]
+pub proof fn lemma_dbm(y: int, m: int)
+    requires 1 <= m <= 12,
+    ensures days_before_month(y, m) == dbm_tab(y, m),
+    decreases m
+{
+    if m > 1 { lemma_dbm(y, m - 1); }
+}
+#[verifier::spinoff_prover]
 pub proof fn lemma_doy_rd(y: int, m: int, d: int)
     requires 1 <= m <= 12,
     ensures rd(y, m, d) == rd(y, 1, 1) + doy(y, m, d) - 1,
 {
-    reveal_with_fuel(days_before_month, 13);
-    let a = y - 1;
-    assert(y / 4 - a / 4 == (if y % 4 == 0 { 1int } else { 0int }));
-    assert(y / 100 - a / 100 == (if y % 100 == 0 { 1int } else { 0int }));
-    assert(y / 400 - a / 400 == (if y % 400 == 0 { 1int } else { 0int }));
+    lemma_dbm(y, m);
+    lemma_rd_lin(y, m, d);
+    lemma_rd_lin(y, 1, 1);
+    lemma_leap_step(y);
 }
+#[verifier::spinoff_prover]
 pub proof fn lemma_rd_year(y: int)
     ensures rd(y + 1, 1, 1) == rd(y, 1, 1) + diy(y),
 {
-    let a = y - 1;
-    assert(y / 4 - a / 4 == (if y % 4 == 0 { 1int } else { 0int }));
-    assert(y / 100 - a / 100 == (if y % 100 == 0 { 1int } else { 0int }));
-    assert(y / 400 - a / 400 == (if y % 400 == 0 { 1int } else { 0int }));
+    lemma_rd_lin(y, 1, 1); lemma_rd_lin(y + 1, 1, 1);
+    lemma_leap_step(y);
 }
 // rd is strictly monotone in (y,m,d) lexicographic order on valid dates => injective.
+#[verifier::spinoff_prover]
 pub proof fn lemma_rd_month_mono(y: int, m1: int, d1: int, m2: int, d2: int)
     requires valid_ymd(y, m1, d1), valid_ymd(y, m2, d2), m1 < m2,
     ensures rd(y, m1, d1) < rd(y, m2, d2),
 {
     lemma_doy_rd(y, m1, d1); lemma_doy_rd(y, m2, d2);
-    reveal_with_fuel(days_before_month, 13);
+    lemma_dbm(y, m1); lemma_dbm(y, m2);
 }
+#[verifier::spinoff_prover]
 pub proof fn lemma_rd_year_mono(y1: int, y2: int)
     requires y1 <= y2,
     ensures rd(y2, 1, 1) - rd(y1, 1, 1) >= 365 * (y2 - y1),
@@ -130,6 +203,7 @@ pub proof fn lemma_rd_year_mono(y1: int, y2: int)
 {
     if y1 < y2 { lemma_rd_year_mono(y1, y2 - 1); lemma_rd_year(y2 - 1); }
 }
+#[verifier::spinoff_prover]
 pub proof fn lemma_rd_mono(y1: int, m1: int, d1: int, y2: int, m2: int, d2: int)
     requires valid_ymd(y1, m1, d1), valid_ymd(y2, m2, d2),
              y1 < y2 || (y1 == y2 && (m1 < m2 || (m1 == m2 && d1 < d2))),
@@ -138,11 +212,12 @@ pub proof fn lemma_rd_mono(y1: int, m1: int, d1: int, y2: int, m2: int, d2: int)
     if y1 < y2 {
         lemma_doy_rd(y1, m1, d1); lemma_doy_rd(y2, m2, d2);
         lemma_rd_year_mono(y1 + 1, y2); lemma_rd_year(y1);
-        reveal_with_fuel(days_before_month, 13);
+        lemma_dbm(y1, m1); lemma_dbm(y2, m2);
     } else if m1 < m2 {
         lemma_rd_month_mono(y1, m1, d1, m2, d2);
     }
 }
+#[verifier::spinoff_prover]
 pub proof fn lemma_rd_inj(y1: int, m1: int, d1: int, y2: int, m2: int, d2: int)
     requires valid_ymd(y1, m1, d1), valid_ymd(y2, m2, d2), rd(y1, m1, d1) == rd(y2, m2, d2),
     ensures y1 == y2 && m1 == m2 && d1 == d2,
@@ -152,6 +227,7 @@ pub proof fn lemma_rd_inj(y1: int, m1: int, d1: int, y2: int, m2: int, d2: int)
 }
 // ISO weekday 1=Monday..7=Sunday of day number e; day 0 (1970-01-01) is a Thursday (4), cyclic successor.
 pub open spec fn wd(e: int) -> int { (e + 3) % 7 + 1 }
+#[verifier::spinoff_prover]
 pub proof fn lemma_wd()
     ensures wd(0) == 4, forall|e: int| #[trigger] wd(e + 1) == (if wd(e) == 7 { 1int } else { wd(e) + 1 }),
 {}
@@ -184,11 +260,13 @@ impl ITime {
 }
 pub open spec fn nth_first_day(y: int, m: int, w: int) -> int { 1 + (w - wd(rd(y, m, 1))) % 7 }
 pub open spec fn nth_last_day(y: int, m: int, w: int) -> int { dim(y, m) - (wd(rd(y, m, dim(y, m))) - w) % 7 }
+#[verifier::spinoff_prover]
 pub proof fn lemma_wd_arith(e: int, w: int, k: int)
     requires 1 <= w <= 7,
     ensures wd(e + (w - wd(e)) % 7 + 7 * k) == w, wd(e - (wd(e) - w) % 7 - 7 * k) == w,
             0 <= (w - wd(e)) % 7 <= 6, 0 <= (wd(e) - w) % 7 <= 6,
 {}
+#[verifier::spinoff_prover]
 pub proof fn lemma_nth_day(y: int, m: int, w: int, k: int)
     requires 1 <= m <= 12, 1 <= w <= 7,
     ensures 1 <= nth_first_day(y, m, w) <= 7, wd(rd(y, m, nth_first_day(y, m, w) + 7 * k)) == w,
@@ -201,6 +279,7 @@ pub proof fn lemma_nth_day(y: int, m: int, w: int, k: int)
     assert(rd(y, m, nth_first_day(y, m, w) + 7 * k) == e1 + (w - wd(e1)) % 7 + 7 * k);
     assert(rd(y, m, nth_last_day(y, m, w) - 7 * k) == e2 - (wd(e2) - w) % 7 - 7 * k);
 }
+#[verifier::spinoff_prover]
 pub proof fn lemma_rd_bounds(y: int, m: int, d: int)
     requires in_range_ymd(y, m, d),
     ensures -4371587 <= rd(y, m, d) <= 2932896,
@@ -211,15 +290,17 @@ pub proof fn lemma_rd_bounds(y: int, m: int, d: int)
     if !(y == -9999 && m == 1 && d == 1) { lemma_rd_mono(-9999, 1, 1, y, m, d); }
     if !(y == 9999 && m == 12 && d == 31) { lemma_rd_mono(y, m, d, 9999, 12, 31); }
 }
+#[verifier::spinoff_prover]
 pub proof fn lemma_year_of_rd(y: int, m: int, d: int)
     requires valid_ymd(y, m, d),
     ensures rd(y, 1, 1) <= rd(y, m, d) < rd(y + 1, 1, 1),
 {
     lemma_doy_rd(y, m, d); lemma_rd_year(y);
-    reveal_with_fuel(days_before_month, 13);
+    lemma_dbm(y, m);
 }
 
 #[verifier::rlimit(200)]
+#[verifier::spinoff_prover]
 pub proof fn lemma_mulshift(k: u64)
     requires k <= 36524,
     ensures ({ let n = 4 * k + 3; (2939745 * n) / 4294967296 == n / 1461 }),
@@ -228,6 +309,7 @@ pub proof fn lemma_mulshift(k: u64)
     assert(k <= 36524 ==> ({ let n = (4 * k + 3) as u64; (2939745 * n) / 4294967296 == n / 1461 })) by (bit_vector);
     assert(k <= 36524 ==> ({ let n = (4 * k + 3) as u64; ((2939745 * n) % 4294967296) / 2939745 / 4 == (n % 1461) / 4 })) by (bit_vector);
 }
+#[verifier::spinoff_prover]
 pub proof fn lemma_month(ny: u32)
     requires ny < 366,
     ensures ({
@@ -249,6 +331,7 @@ pub proof fn lemma_month(ny: u32)
     })) by (bit_vector);
 }
 // q = (4n+3)/P, r = ((4n+3)%P)/4 with P = 4p+1  ==> n == p*q + q/4 + r, and (r == p ==> q%4 == 3)
+#[verifier::spinoff_prover]
 pub proof fn lemma_cycle(n: int, p: int)
     requires n >= 0, p > 0,
     ensures ({
@@ -273,6 +356,53 @@ pub proof fn lemma_cycle(n: int, p: int)
     assert(4 * n + 3 == 4 * (p * q) + 4 * a + b + 4 * r + t) by (nonlinear_arith)
         requires n1 == big * q + r1, big * q == 4 * p * q + q, q == 4 * a + b, r1 == 4 * r + t, n1 == 4 * n + 3;
     assert(b + t == 3);
+}
+
+/// the arithmetic heart of Neri-Schneider's to_date, over plain integers
+#[verifier::spinoff_prover]
+pub proof fn lemma_ns_final(e: int, c: int, z: int, ny: int, mm: int, dd: int)
+    requires
+        -4371587 <= e <= 2932896,
+        228 <= c <= 428, 0 <= z <= 99, 0 <= ny <= 365,
+        e + 12699422 == 36524 * c + c / 4 + (365 * z + z / 4 + ny),
+        3 <= mm <= 14, 0 <= dd <= 30,
+        ny == moff(mm) + dd,
+        mm == 14 ==> dd <= 28, (mm == 4 || mm == 6 || mm == 9 || mm == 11) ==> dd <= 29,
+        (ny >= 306) <==> (mm >= 13),
+        mm == 14 && dd == 28 ==> ny == 365,
+        // ny == 365 only in the last year of a 4-year cycle, and the 4-year cycle's 1461st day only in the last of a 400-year cycle
+        ny == 365 ==> z % 4 == 3,
+        (365 * z + z / 4 + ny) == 36524 ==> c % 4 == 3,
+    ensures ({
+        let yy = 100 * c + z - 32800;
+        let j = if ny >= 306 { 1int } else { 0int };
+        let year = yy + j;
+        let month = if ny >= 306 { mm - 12 } else { mm };
+        let day = dd + 1;
+        -9999 <= year <= 9999 && valid_ymd(year, month, day) && rd(year, month, day) == e
+    }),
+{
+    let yy = 100 * c + z - 32800;
+    let j = if ny >= 306 { 1int } else { 0int };
+    let year = yy + j;
+    let month = if ny >= 306 { mm - 12 } else { mm };
+    let day = dd + 1;
+    let big = 100 * c + z;
+    assert(big / 4 == 25 * c + z / 4);
+    assert(big / 100 == c);
+    assert(big / 400 == c / 4);
+    assert(yy / 4 == big / 4 - 8200);
+    assert(yy / 100 == big / 100 - 328);
+    assert(yy / 400 == big / 400 - 82);
+    lemma_rd_lin(year, month, day);
+    // leap status of the March-based year yy+1 decides whether Feb 29 (mm == 14, dd == 28) exists
+    if mm == 14 && dd == 28 {
+        let y1 = yy + 1;
+        assert(z % 4 == 3);
+        assert(y1 % 4 == 0);
+        if z == 99 { assert((365 * z + z / 4 + ny) == 36524); assert(c % 4 == 3); assert(y1 % 400 == 0); }
+        else { assert(y1 % 100 != 0); }
+    }
 }
 
 
@@ -321,6 +451,7 @@ pub const MAX: ITimestamp =
     }
 
 // @fn ITimestamp::to_datetime @src crates/jiff-static/src/shared/util/itime.rs:52
+#[verifier::spinoff_prover]
 
     pub const fn to_datetime(&self, offset: IOffset) -> (r: IDateTime)
     requires
@@ -419,6 +550,7 @@ pub const MIN: IDateTime = IDateTime { date: IDate::MIN, time: ITime::MIN };
 pub const MAX: IDateTime = IDateTime { date: IDate::MAX, time: ITime::MAX };
 
 // @fn IDateTime::to_timestamp @src crates/jiff-static/src/shared/util/itime.rs:99
+#[verifier::spinoff_prover]
 
     pub fn to_timestamp(&self, offset: IOffset) -> (r: ITimestamp)
     requires
@@ -486,6 +618,7 @@ pub const MAX: IDateTime = IDateTime { date: IDate::MAX, time: ITime::MAX };
     }
 
 // @fn IDateTime::checked_add_seconds @src crates/jiff-static/src/shared/util/itime.rs:143
+#[verifier::spinoff_prover]
 
     pub fn checked_add_seconds(
         &self,
@@ -543,6 +676,7 @@ pub const MIN: IEpochDay = IEpochDay { epoch_day: -4371587 };
 pub const MAX: IEpochDay = IEpochDay { epoch_day: 2932896 };
 
 // @fn IEpochDay::to_date @src crates/jiff-static/src/shared/util/itime.rs:175
+#[verifier::spinoff_prover]
 
      
     pub const fn to_date(&self) -> (r: IDate)
@@ -573,6 +707,7 @@ pub const MAX: IEpochDay = IEpochDay { epoch_day: 2932896 };
             assert(N as int == 36524 * C + C / 4 + N_C);
             assert(N_C <= 36524);
             assert(228 <= C <= 428);
+            assert(N_C == 36524 ==> C % 4 == 3);
         }
 
 
@@ -588,6 +723,7 @@ pub const MAX: IEpochDay = IEpochDay { epoch_day: 2932896 };
             assert(N_C as int == 365 * Z + Z / 4 + N_Y);
             assert(Z <= 99);
             assert(N_Y <= 365);
+            assert(N_Y == 365 ==> Z % 4 == 3);
         }
 
         let Y = 100 * C + Z;
@@ -595,7 +731,7 @@ pub const MAX: IEpochDay = IEpochDay { epoch_day: 2932896 };
         let N_3 = 2141 * N_Y + 197913;
         let M = N_3 / 65536;
         let D = (N_3 % 65536) / 2141;
-        proof { lemma_month(N_Y); }
+        proof { lemma_month(N_Y); lemma_moff(M as int); }
 
 
         let J = N_Y >= 306;
@@ -603,20 +739,14 @@ pub const MAX: IEpochDay = IEpochDay { epoch_day: 2932896 };
         let month = (if J { M - 12 } else { M }) as i8;
         let day = (D + 1) as i8;
         proof {
+            lemma_ns_final(self.epoch_day as int, C as int, Z as int, N_Y as int, M as int, D as int);
             let yy: int = Y as int - 32800;
             let yr: int = yy + if J { 1int } else { 0int };
-            assert(-10000 <= yy <= 9999);
             let w = Y.wrapping_sub(L).wrapping_add(J as u32);
             assert(yr >= 0 ==> w as int == yr);
             assert(yr < 0 ==> w as int == yr + 4294967296);
             assert(w < 0x8000 ==> (w as i16) as int == w as int) by (bit_vector);
             assert(w >= 0xFFFF8000u32 ==> (w as i16) as int == w as int - 4294967296) by (bit_vector);
-            assert(Y as int / 4 == 25 * C + Z / 4);
-            assert(Y as int / 100 == C as int);
-            assert(Y as int / 400 == C as int / 4);
-            assert(yy / 4 == Y as int / 4 - 8200);
-            assert(yy / 100 == Y as int / 100 - 328);
-            assert(yy / 400 == Y as int / 400 - 82);
             let mo: u32 = if J { (M - 12) as u32 } else { M };
             assert(mo <= 12 ==> (mo as i8) as int == mo as int) by (bit_vector);
             let dd = (D + 1) as u32;
@@ -719,6 +849,7 @@ pub const MAX: IDate = IDate { year: 9999, month: 12, day: 31 };
     }
 
 // @fn IDate::from_day_of_year @src crates/jiff-static/src/shared/util/itime.rs:283
+#[verifier::spinoff_prover]
 
     pub fn from_day_of_year(
         year: i16,
@@ -792,6 +923,7 @@ pub const MAX: IDate = IDate { year: 9999, month: 12, day: 31 };
     }
 
 // @fn IDate::to_epoch_day @src crates/jiff-static/src/shared/util/itime.rs:353
+#[verifier::spinoff_prover]
 
      
     pub const fn to_epoch_day(&self) -> (r: IEpochDay)
@@ -860,6 +992,7 @@ pub const MAX: IDate = IDate { year: 9999, month: 12, day: 31 };
     }
 
 // @fn IDate::nth_weekday_of_month @src crates/jiff-static/src/shared/util/itime.rs:391
+#[verifier::spinoff_prover]
 
     pub fn nth_weekday_of_month(
         &self,
@@ -984,6 +1117,7 @@ pub const MAX: IDate = IDate { year: 9999, month: 12, day: 31 };
     }
 
 // @fn IDate::checked_add_days @src crates/jiff-static/src/shared/util/itime.rs:508
+#[verifier::spinoff_prover]
 
     pub fn checked_add_days(
         &self,
